@@ -5,19 +5,19 @@ module S = Stdlib.String
 
 let rid_tbl : (string, int) Hashtbl.t = Hashtbl.create 64
 let rid_names : (int, string) Hashtbl.t = Hashtbl.create 64
-(* "NqK" (resource N with query q=K) is interned as 10000 + 100*N + K *)
+(* "NqK" (resource N with query q=K) is interned as 200 + 10*N + K *)
 let qparts (s : string) : (int * int) option =
   match S.index_opt s 'q' with
   | Some i when i > 0 ->
     (match int_of_string_opt (S.sub s 0 i), int_of_string_opt (S.sub s (i + 1) (S.length s - i - 1)) with
-     | Some n, Some k when n >= 0 && n < 90 && k >= 0 && k < 100 -> Some (n, k)
+     | Some n, Some k when n >= 0 && n < 80 && k >= 0 && k < 10 -> Some (n, k)
      | _ -> None)
   | _ -> None
 let rid_of (s : string) : Datatypes.nat =
   let n = (match int_of_string_opt s with
-    | Some n when n >= 0 && n < 1000 -> n
+    | Some n when n >= 0 && n < 200 -> n
     | _ -> (match qparts s with
-        | Some (n, k) -> 10000 + 100 * n + k
+        | Some (n, k) -> 200 + 10 * n + k
         | None -> (try Hashtbl.find rid_tbl s with Not_found ->
               let n = 1000 + Hashtbl.length rid_tbl in Hashtbl.add rid_tbl s n; n))) in
   Hashtbl.replace rid_names n s; nat_of_int n
@@ -184,7 +184,7 @@ let parse_file (path : string) : Trace.tev list * stats =
              (* every client-side id that aliases the answered variant (q=K with the same K mod 2) *)
              (match qparts v with
               | Some (nn, k) ->
-                let aliases = L.filter_map (fun kk -> if kk mod 2 = k mod 2 then Some (nat_of_int (10000 + 100 * nn + kk)) else None) [0; 1; 2; 3] in
+                let aliases = L.filter_map (fun kk -> if kk mod 2 = k mod 2 then Some (nat_of_int (200 + 10 * nn + kk)) else None) [0; 1; 2; 3] in
                 push (Trace.TQueryAnswered aliases)
               | None -> ())
            | None -> ());
